@@ -539,8 +539,24 @@ void run_stream_level(Judge& j, uint64_t n) {
         }
         int nk = (int)rng.below(3);
         for (int k = 0; k < nk; ++k) { Action x; x.kind = Action::net_kill; x.at = (vt)rng.range(100 * MS, span); x.ec = (int)rng.below(6); sc.script.push_back(x); }
+        bool restart = !probe && rng.chance(1, 3);
+        if (restart) {
+            // what a client stopped through async_run's cancellation slot and run again does to the same stream object:
+            // cancel()+close() while a (slow) shutdown / a connection attempt / lock waiters are in progress, then open()
+            // and new operations, every one of which must be resolved
+            sc.net.shutdown_delay = (vt)rng.range(1 * MS, 500 * MS);
+            vt t0 = (vt)rng.range(100 * MS, span);
+            if (rng.chance(2, 3)) { Action sh; sh.kind = Action::s_shutdown; sh.at = t0; sc.script.push_back(sh); }
+            Action c; c.kind = Action::s_cancel; c.at = t0 + (vt)rng.range(0, 600 * MS); sc.script.push_back(c);
+            Action o2; o2.kind = Action::s_open; o2.at = c.at + (rng.chance(1, 2) ? 0 : (vt)rng.range(1 * MS, 700 * MS)); sc.script.push_back(o2);
+            int nw = (int)rng.range(1, 3);
+            for (int k = 0; k < nw; ++k) { Action wr; wr.kind = rng.chance(1, 3) ? Action::s_read : Action::s_write; wr.timeout_ms = 2000; wr.payload = std::string("\xC0\x00", 2); wr.at = o2.at + (vt)rng.range(0, 3 * SEC); sc.script.push_back(wr); }
+            sc.end = o2.at + 150 * SEC;
+            j.res.count("stream_restart_scenarios");
+        } else {
         if (rng.chance(1, 3)) { Action c; c.kind = Action::s_cancel; c.at = (vt)rng.range(0, span); sc.script.push_back(c); }
         sc.end = span + 25 * SEC;
+        }
         vu::set_case(sc.family + " index=" + std::to_string(i));
         auto ex = execute(sc);
         j.judge(sc, *ex);
